@@ -11,9 +11,9 @@ def _toks(field):
 def c10_casesv(lines):
     rows = []
     for l in lines:
-        _, idx, isz, vec, cls, detail, args, help_, fields = l.split()
-        rows.append("verdict_clean (check_case %s (nth %s%%nat c10_tables []) %s %s %s %s %s %s)" % (
-            isz, idx, _toks(vec), cls, coq_bytes(detail), _toks(args), "true" if help_ == "1" else "false", _toks(fields)))
+        _, idx, isz, mode, unchanged, vec, cls, detail, args, help_, fields = l.split()
+        rows.append("verdict_clean (check_case %s (nth %s%%nat c10_tables []) %s %s %s %s %s %s %s %s)" % (
+            isz, idx, "1" if mode == "P1" else "0", "true" if unchanged == "1" else "false", _toks(vec), cls, coq_bytes(detail), _toks(args), "true" if help_ == "1" else "false", _toks(fields)))
     return ("From Coq Require Import List NArith.\nImport ListNotations.\nFrom Glb Require Import Check.C10.\n"
             "Open Scope N_scope.\nDefinition verdicts : list bool := [\n  " + ";\n  ".join(rows) +
             "].\nEval vm_compute in verdicts.\n")
@@ -22,7 +22,7 @@ def c10_casesv(lines):
 def c10_sig(line):
     # class of the observation + the vector: stable signature of a finding
     p = line.split()
-    return "c10:" + (p[3] if len(p) > 3 else "")
+    return "c10:" + (p[5] if len(p) > 5 else "")
 
 
 ID = "C10"
